@@ -59,7 +59,7 @@ S2 = absig.Sentinel('S', 2)
 TOP_CONTEXTS = ['expr', 'assign', 'if', 'try', 'with', 'compr', 'decoyarg', 'for', 'ternary', 'boolop']
 # further statement forms in which the call is executed exactly once (variant 3, which also reaches the callees through an attribute: NS.w1)
 TOP_CONTEXTS3 = ['while', 'else', 'finally', 'withitem', 'fstring', 'subscript', 'assert', 'starlist', 'elif', 'except_else', 'dictvalue', 'compare',
-                 'attr_of_result', 'attr_store_on_result', 'except_body', 'second_star']
+                 'attr_of_result', 'attr_store_on_result', 'except_body', 'second_star', 'attr2_of_result', 'method_on_result', 'attr_in_argument']
 
 
 def call_text(callee, s, n, names, va, vk, k):
@@ -131,6 +131,12 @@ def in_context(ctx, call, i):
         return ['NSX.last = (%s).__class__' % call]
     if ctx == 'except_body':
         return ['try:', '    raise ZeroDivisionError()', 'except ZeroDivisionError:', '    ' + call]
+    if ctx == 'attr2_of_result':
+        return ['r%d = %s.__class__.__name__' % (i, call)]
+    if ctx == 'method_on_result':
+        return ['r%d = %s.__eq__(None)' % (i, call)]
+    if ctx == 'attr_in_argument':
+        return ['G(%s.__class__)' % call]
     if ctx == 'second_star':
         return ['G(*(), *(%s or ()))' % call]
     raise ValueError(ctx)
